@@ -178,9 +178,10 @@ CVQuick == << CV(<<"A", "C">>, OK2, TRUE), CV(<<"C", None>>, OK2, TRUE), CV(<<"G
               CV(<<None, None>>, OK2, TRUE), CV(<<None, "A">>, <<TRUE, FALSE>>, TRUE) >>
 InstQuickWide    == [maxlen |-> 2, minqs |-> {20}, qn |-> <<"q1", "q2">>, rg |-> <<"a1", "a2", "b1">>, fm |-> FMQuick, cv |-> CVQuick]
 InstQuickDeep    == [maxlen |-> 3, minqs |-> {20}, qn |-> <<"q1", "q2">>, rg |-> <<"a1", "a2">>, fm |-> SubSeq(FMNarrow, 1, 2), cv |-> SubSeq(CVNarrow, 1, 4)]
-InstThoroughWide == [maxlen |-> 2, minqs |-> {20, 30}, qn |-> <<"q1", "q2">>, rg |-> <<"a1", "a2", "b1">>, fm |-> FMThorough, cv |-> CVWide]
-InstThoroughDeep == [maxlen |-> 3, minqs |-> {20, 30}, qn |-> <<"q1", "q2">>, rg |-> <<"a1", "a2", "b1">>, fm |-> FMNarrow \o << FM({}, 19) >>,
-                     cv |-> CVNarrow \o << CV(<<None, "T">>, OK2, TRUE) >>]
+InstThoroughWideA == [maxlen |-> 2, minqs |-> {20, 30}, qn |-> <<"q1", "q2">>, rg |-> <<"a1", "a2", "b1">>, fm |-> FMWide, cv |-> SubSeq(CVWide, 1, 5)]
+InstThoroughWideB == [maxlen |-> 2, minqs |-> {20, 30}, qn |-> <<"q1", "q2">>, rg |-> <<"a1", "a2", "b1">>, fm |-> SubSeq(FMThorough, 7, 14), cv |-> SubSeq(CVWide, 6, 10)]
+InstThoroughDeep == [maxlen |-> 3, minqs |-> {20, 30}, qn |-> <<"q1", "q2">>, rg |-> <<"a1", "a2", "b1">>, fm |-> FMNarrow,
+                     cv |-> SubSeq(CVNarrow, 1, 4)]
 InstTiny         == [maxlen |-> 2, minqs |-> {20, 30}, qn |-> <<"q1">>, rg |-> <<"a1", "b1">>, fm |-> FMNarrow, cv |-> CVNarrow]
 
 Ix == (1..Len(Inst.qn)) \X (1..Len(Inst.rg)) \X (1..Len(Inst.fm)) \X (1..Len(Inst.cv))
